@@ -49,3 +49,53 @@ def c05(ctx):
                 "is non-trivial if it has at least one call and distinct if its (script, calls, results) differ")
     ctx.assumptions += ["the client has pre-written its script and half-closed, so each call is deterministic",
                         "wire projection is lexical: status code + presence of `connection: close`"]
+
+
+# ---------------------------------------------------------------------------------- C14
+reg("headers-enum", "Trace_Headers")
+reg("ascii-ctors", "Trace_Headers")
+reg("framing-gen", "Trace_Framing")
+reg("pipeline-gen", "Trace_Framing")
+
+
+@prop("C14")
+def c14(ctx):
+    ctx.mc("MC_Headers", workers=8)
+    if ctx.quick:
+        tr = ctx.drive("headers-enum", depth=4, sample=3000, sample_depth=12)
+        fr = ctx.drive("framing-gen", n=1500, cross=0)
+    else:
+        tr = ctx.drive("headers-enum", depth=5, sample=20000, sample_depth=12, timeout=3000)
+        fr = ctx.drive("framing-gen", n=20000, cross=1)
+    ctx.validate("Trace_Headers", tr, "headers-enum", timeout=3000)
+    ct = ctx.drive("ascii-ctors", n=300 if ctx.quick else 5000)
+    ctx.validate("Trace_Headers", ct, "ascii-ctors")
+    # the header list a handler sees = the list sent minus the consumed framing fields, in order
+    ctx.validate("Trace_Framing", fr, "framing-gen",
+                 keep=lambda why: why[0] in ("Panic", "Hang") or (why[0] == "Mismatch" and "headers" in why[1]))
+    ctx.exhaustive = True
+    ctx.rule = ("every sequence of the 18 HeaderList operation instances (add x 6 names, get_only/get_all/remove_only/"
+                "remove_all x 3 names) to depth 4 (quick) / 5 (thorough) plus random depth-12 sequences; generated "
+                "requests with 0..16 fields in shuffled order through read_http_request; every AsciiString constructor "
+                "on ASCII and non-ASCII input. Distinct = differing event content")
+    ctx.assumptions += ["values are made distinct (v0, v1, ...) so any permutation is visible"]
+
+
+# ---------------------------------------------------------------------------------- C03
+@prop("C03")
+def c03(ctx):
+    ctx.mc("MC_Conn", workers=8)
+    if ctx.quick:
+        fr = ctx.drive("framing-gen", n=2000, cross=1)
+        pl = ctx.drive("pipeline-gen", n=3000)
+    else:
+        fr = ctx.drive("framing-gen", n=60000, cross=1)
+        pl = ctx.drive("pipeline-gen", n=60000)
+    ctx.validate("Trace_Framing", fr, "framing-gen")
+    ctx.validate("Trace_Framing", pl, "pipeline-gen")
+    # chunked / gzip are refused when the body is read: the chunked and gzip client scripts of conn-enum
+    tr = ctx.drive("conn-enum", depth=2, sample=0)
+    ctx.validate("Trace_Conn", tr, "conn-enum")
+    ctx.rule = ("cross product method class x Content-Length multiset x Transfer-Encoding multiset x Expect (single "
+                "messages) plus random header multisets, and wires of 1..8 concatenated messages (valid, bodiless, "
+                "unknown-length, ambiguous) with bodies that look like requests, read back under random fragmentation")
